@@ -1080,8 +1080,6 @@ struct const_subarray : array_types<T, D, ElementPtr, Layout> {
  public:
 	const_subarray(const_subarray&&) noexcept = default;  // lints(readability-redundant-access-specifiers)
 
-	constexpr auto       elements()      & ->       elements_range { return elements_aux_(); }
-	constexpr auto       elements()     && ->       elements_range { return elements_aux_(); }
 	constexpr auto       elements() const&                         { return const_elements_range(this->base(), this->layout()); }
 	constexpr auto const_elements() const  -> const_elements_range { return elements_aux_(); }
 
@@ -1981,6 +1979,10 @@ class subarray : public const_subarray<T, D, ElementPtr, Layout> {
 	constexpr auto home()     && { return this->home_aux_(); }
 	constexpr auto home()      & { return this->home_aux_(); }
 
+	constexpr auto elements() const& { return static_cast<const_subarray<T, D, ElementPtr, Layout> const&>(*this).elements(); }
+	constexpr auto elements()  & { return typename subarray::elements_range(this->base_, this->layout()); }
+	constexpr auto elements() && { return typename subarray::elements_range(this->base_, this->layout()); }
+
 	template<class It> constexpr auto assign(It first) & -> It { adl_copy_n(first, this->size(), begin()); std::advance(first, this->size()); return first; }
 	template<class It> constexpr auto assign(It first)&& -> It { return assign(first);}
 
@@ -2085,7 +2087,7 @@ class subarray : public const_subarray<T, D, ElementPtr, Layout> {
 	template<class TT, class... As> constexpr auto operator=(const_subarray<TT, D, As...>     && other) && -> subarray& {operator=(std::move(other)); return *this;}
 	template<class TT, class... As> constexpr auto operator=(const_subarray<TT, D, As...>     && other)  & -> subarray& {
 		BOOST_MULTI_ASSERT(this->extensions() == other.extensions());
-		this->elements() = std::move(other).elements();
+		this->elements() = other.elements_aux_();  // an expiring view (e.g. element_moved()) is read through its own, possibly moving, references
 		return *this;
 	}
 
@@ -2954,8 +2956,6 @@ struct const_subarray<T, 1, ElementPtr, Layout>  // NOLINT(fuchsia-multiple-inhe
 	constexpr auto elements_aux_() const {return elements_range{this->base_, this->layout()};}
 
  public:
-	constexpr auto  elements()      & ->       elements_range {return elements_aux_();}
-	constexpr auto  elements()     && ->       elements_range {return elements_aux_();}
 	constexpr auto  elements() const& -> const_elements_range {return const_elements_range{this->base(), this->layout()};}  // TODO(correaa) simplify
 
 	constexpr auto celements() const  -> const_elements_range {return elements_aux_();}
